@@ -86,6 +86,38 @@ func varnames(tup *types.Tuple) []string {
 func stripVarName(v *types.Var) *types.Var {
 	return types.NewVar(v.Pos(), v.Pkg(), "", v.Type())
 }
+// renameParams renames the parameters of the returned function that have the name of a variable of the generated function:
+// err, f, success or one of the outs. Otherwise a parameter of f that is called err is returned instead of the given error.
+func renameParams(params *types.Tuple, numResults int) *types.Tuple {
+	used := map[string]bool{"err": true, "f": true, "success": true}
+	for i := 0; i < numResults-1; i++ {
+		used[fmt.Sprintf("out%d", i)] = true
+	}
+	clash := false
+	for i := 0; i < params.Len(); i++ {
+		if used[params.At(i).Name()] {
+			clash = true
+		}
+	}
+	if !clash {
+		return params
+	}
+	for i := 0; i < params.Len(); i++ {
+		used[params.At(i).Name()] = true
+	}
+	vars := make([]*types.Var, params.Len())
+	for i := 0; i < params.Len(); i++ {
+		v := params.At(i)
+		name := fmt.Sprintf("param%d", i)
+		for used[name] {
+			name += "_"
+		}
+		used[name] = true
+		vars[i] = types.NewVar(v.Pos(), v.Pkg(), name, v.Type())
+	}
+	return types.NewTuple(vars...)
+}
+
 func outs(num int, last string) string {
 	outs := make([]string, num)
 	for i := 0; i < num-1; i++ {
@@ -117,7 +149,7 @@ func (g *gen) genFuncFor(deriveFuncName string, ftyp *types.Signature) error {
 
 	mutable[rlen-1] = types.NewVar(ftyp.Results().At(rlen-1).Pos(), nil, "", basicErrorType{})
 	newResultType := types.NewTuple(mutable...)
-	newSigType := types.NewSignature(nil, ftyp.Params(), newResultType, ftyp.Variadic())
+	newSigType := types.NewSignature(nil, renameParams(ftyp.Params(), rlen), newResultType, ftyp.Variadic())
 
 	p.P("")
 	p.P("// %s transforms the given function's last bool type into an error type. The transformed function returns the given error when the result of the given function is false, otherwise it returns nil.", deriveFuncName)
